@@ -49,6 +49,22 @@ CLAIMED = {
        "propext/Classical.choice/Quot.sound; Spec/Namespace.lean as transcribed; translator; harness/generators.",
   technique="Lean 4 proof over translator-generated constants + model/implementation correspondence (direct class + parse level)",
   ref="4/C06"),
+ "C09": dict(
+  text="Lean 4 theorems (37, all strings/octet lists, unbounded) over code-shaped models of XMLBigDecimal::parseDecimal/toCompare/"
+       "getCanonicalRepresentation, XMLBigInteger, HexBin, Base64 (tables regenerated from the sources each run), XMLString::replaceWS/"
+       "collapseWS, BooleanDatatypeValidator, and XMLDateTime validateDateTime/normalize/compareOrder/compare: "
+       "decimal accepted iff lexical after white-space processing; compare = order of the values (reflexive, antisymmetric, transitive, "
+       "lexical-form independent); canonical form valid, canonical, value-preserving, idempotent; compare EQUAL iff same canonical form; "
+       "totalDigits/fractionDigits both directions; integer likewise; hex/base64 valid iff lexical, decode(encode)=id, accepted strings are exactly "
+       "the encoding of the returned octets modulo white space; collapse = XSD 4.3.6, idempotent; boolean; date/time: validateDateTime = field validity, "
+       "normalize preserves the instant, compareOrder = time-line order. Tied to the code by correspondence through XMLBigDecimal/XMLBigInteger/HexBin/"
+       "Base64/XMLString/XMLDateTime directly, the built-in validators, and XSValue; the Spec judges all three routes and validator/XSValue must agree.",
+  note="PARTIAL: date/time theorems are *_partial (field level; order theorems for values in normal range with equal zonedness; the 14-hour rule by "
+       "correspondence + witness; durations not modelled). float/double: lexical recogniser + validator/XSValue agreement only. In-parse validation is "
+       "represented by validator(white-space-normalised string). Bounds/enumeration facets, list/union, restriction chains: not built. Trusted: Lean kernel + "
+       "propext/Classical.choice/Quot.sound; Specs as transcribed; translator; harness/generators.",
+  technique="Lean 4 proof over translator-generated tables + model/implementation correspondence, Spec-judged on three API routes",
+  ref="4/C09"),
 }
 
 def main():
